@@ -44,6 +44,8 @@ def families(tier):
     q = tier == "quick"
     return [
         ("twins", lambda: _twins(tier), 1),
+        # crossing stems of 100-300 base pairs (more than 256 bracket characters of one kind): the derivations and the texts, one call each
+        ("long-stems", lambda: ({**c, "depth": 2, "ops": ["without_pseudoknots", "without_isolated", "dot_bracket", "str"]} for c in __import__("mc.props.c02", fromlist=["x"])._long_stems(tier)), 1),
         ("M", lambda: enum2d.M(6 if q else 7), 1),
         ("D", lambda: enum2d.D(2 if q else 3), 1),
         # K mutually crossing stems: the only family that reaches bracket levels beyond '{' (every level up to the 12th / 16th)
